@@ -112,9 +112,9 @@ def networks(ctx, gen):
             add("double-idle", [], T, role="double", ping=r % 2 == 1, perturb=r % 3)
             add("double-hold", [{"at": 1, "a": "open", "id": 1}, {"at": 6, "a": "drop", "id": 1}], T, role="double", perturb=(r + 1) % 3)
             add("double-use", [{"at": 3, "a": "open", "id": 1}, {"at": 3.5, "a": "drop", "id": 1}], T, role="double", ping=True)
-    pick = gen if not ctx.quick() else rnd.sample(gen, min(len(gen), 220))
+    pick = rnd.sample(gen, min(len(gen), 220 if ctx.quick() else 3000))
     for i, (sched, ping) in enumerate(pick):
-        for T in (TS if not ctx.quick() else (TS[i % 3],)):
+        for T in (TS if not ctx.quick() and i % 5 == 0 else (TS[i % 3],)):
             add("tlc-%d" % i, sched, T, ping=ping or i % 4 == 0, frm="AB"[i % 2], perturb=i % 3)
     rnd.shuffle(out)
     return out
@@ -180,7 +180,7 @@ def evidence(mc, gstats, summ, nets, lines, nseg, nev):
         fam[f] = fam.get(f, 0) + 1
         T = head["T"]
         evs = [json.loads(x) for x in s[1:]]
-        shape, last_act, idle = [], {}, {}
+        shape, last_act, idle, dropping = [], {}, {}, {}
         for e in evs:
             k = e["e"]
             if k in ("est", "open_begin", "open_ok", "open_fail", "drop_begin", "drop_done", "closed", "open_refused"):
@@ -195,13 +195,18 @@ def evidence(mc, gstats, summ, nets, lines, nseg, nev):
                 last_act[st] = max(last_act.get(st, 0), e["t"])
             elif k == "open_ok" and e["rem"]:
                 last_act[st] = max(last_act.get(st, 0), e["tb"])
+            elif k == "drop_begin":
+                dropping[st] = dropping.get(st, 0) + 1
             elif k in ("open_fail", "drop_done"):
                 idle[st] = max(idle.get(st, 0), e["t"])
+                if k == "drop_done":
+                    dropping[st] = dropping.get(st, 0) - 1
             elif k == "closed" and e["by"] == "self" and st in last_act:
                 m1 = e["t"] - last_act[st] - T
                 m2 = e["t"] - idle[st] - T
                 margins["notbefore_min_ms"] = m1 if margins["notbefore_min_ms"] is None else min(margins["notbefore_min_ms"], m1)
-                margins["eventually_max_ms"] = m2 if margins["eventually_max_ms"] is None else max(margins["eventually_max_ms"], m2)
+                if not dropping.get(st):
+                    margins["eventually_max_ms"] = m2 if margins["eventually_max_ms"] is None else max(margins["eventually_max_ms"], m2)
         shapes.add((head["T"], json.dumps(shape)))
     return {
         "states": sum(m["distinct"] for m in mc), "transitions": sum(m["transitions"] for m in mc),
